@@ -22,19 +22,19 @@ Proof.
 Qed.
 
 Definition stop_w1 (w : world) : world :=
-  if st_is w StEstablished then p_send_notification c_ERR_CEASE 0 [] w else w.
+  if st_in w [StOpenSent; StOpenConfirm; StEstablished] then p_send_notification c_ERR_CEASE 0 [] w else w.
 
 Lemma stop_conns w :
   w_conns (peering_manual_stop w) = w_conns (fsm__close_connection (stop_w1 w)).
 Proof.
   unfold peering_manual_stop, F_manual_stop, fsmU_manual_stop, fsm_manual_stop, stop_w1. cbv beta zeta.
-  set (w1 := if st_is w StEstablished then p_send_notification c_ERR_CEASE 0 [] w else w).
+  set (w1 := if st_in w [StOpenSent; StOpenConfirm; StEstablished] then p_send_notification c_ERR_CEASE 0 [] w else w).
   assert (G : forall x, same_cp x w1 ->
      w_conns (snd (true, set_state StIdle (set_w_auto false (set_w_crc 0 (fsm__close_connection x))))) =
      w_conns (fsm__close_connection w1)).
   { intros x Hx. cbn [snd]. rewrite <- (close_conns_same x w1 Hx).
     unfold set_state. destruct (bst_eqb _ _); reflexivity. }
-  destruct (st_is w StEstablished); fold w1;
+  destruct (st_in w [StOpenSent; StOpenConfirm; StEstablished]); fold w1;
   repeat match goal with |- context [if tm_status ?t ?x then _ else _] => destruct (tm_status t x) end;
   apply G; repeat first [ apply same_cp_refl | eapply same_cp_trans; [apply same_cp_cancel|] ].
 Qed.
